@@ -6,6 +6,7 @@
 // (and with -fsanitize=thread) it is the same workload for ThreadSanitizer, out = "-".
 #include "vh.hpp"
 #include <atomic>
+#include <cstring>
 #include <functional>
 #include <memory>
 #include <optional>
@@ -58,7 +59,7 @@ extern "C" int __wrap_pthread_mutex_unlock(pthread_mutex_t * m)
 static thread_local volatile long long tl_sink = 0;
 static inline void rec(int, int, long long a = 0, long long b = 0, long long c = 0, long long d = 0, long long e = 0) {tl_sink = tl_sink + a + b + c + d + e;}
 #endif
-static inline void inv(int m, long long arg = 0) {rec(0, m, arg);}
+static inline void inv(int m, long long arg = 0, long long b = 0, long long c = 0, long long d = 0) {rec(0, m, arg, b, c, d);}
 static inline void res(int m, long long a = 0, long long b = 0, long long c = 0, long long d = 0, long long e = 0) {rec(3, m, a, b, c, d, e);}
 
 // ----------------------------------------------------------------------------- projections
@@ -100,6 +101,15 @@ static RepObs projReport(const DiagnosticReport & r, const std::string & name, d
 }
 
 struct Pair {long long a = 0, b = ~0LL;};
+
+// the bit pattern of a double as three small integers (TLC's integers are 32-bit); every NaN is one token
+struct Bits {long long hi, mid, lo;};
+static Bits bitsOf(double v)
+{
+  if (std::isnan(v)) {return Bits{-1, 0, 0};}
+  uint64_t u; std::memcpy(&u, &v, sizeof u);
+  return Bits{(long long)(u >> 44), (long long)((u >> 22) & 0x3FFFFF), (long long)(u & 0x3FFFFF)};
+}
 
 struct Work
 {
@@ -213,10 +223,17 @@ static void runStats(Work & w, bool var)
   footprint(*st);
   w.bufs.reserve(16);
   w.spawn([&](vh::Rng & r) {
+      // a replica of the object, used by the writer thread alone, is given the same calls first: what it reports is what the
+      // sequential execution of this history reports (for the variance while the window is filling, which C16 leaves open)
+      S replica(prec, W);
+      auto seqVar = [&]() {
+          if constexpr (std::is_same_v<S, OnlineVariance>) {return bitsOf(replica.getVariance());} else {return Bits{0, 0, 0};}
+        };
       for (long long k = 0; k < w.ops; ++k) {
-        if (r.coin(1, 40)) {inv(RESET); st->reset(); res(RESET); continue;}
+        if (r.coin(1, 40)) {replica.reset(); Bits b = seqVar(); inv(RESET, 0, b.hi, b.mid, b.lo); st->reset(); res(RESET); continue;}
         long long q = r.range(-40, 40);
-        inv(UPDATE, q); st->update((q / 4.0) * prec); res(UPDATE);
+        replica.update((q / 4.0) * prec); Bits b = seqVar();
+        inv(UPDATE, q, b.hi, b.mid, b.lo); st->update((q / 4.0) * prec); res(UPDATE);
       }
       w.stop = true;
     });
@@ -235,7 +252,8 @@ static void runStats(Work & w, bool var)
             double v = static_cast<OnlineVariance *>((OnlineAverage *)st)->getVariance();
             bool ex = true; long long x = std::isnan(v) ? 0 : vh::proj(v * M * M * W * (W - 1.0), ex, 1e-7);
             if (std::isnan(v)) {ex = false;}
-            res(GETVAR, ex ? x : 0, 0, ex);
+            Bits b = bitsOf(v);
+            res(GETVAR, ex ? x : 0, b.hi, ex, b.mid, b.lo);
           }
           (void)i;
         }
@@ -359,7 +377,7 @@ static void dump(Work & w, const char * path)
   std::fputs(w.resetLine.c_str(), f);
   // calls still in flight when the writer finished are complete (threads were joined)
   for (auto & r : all) {
-    if (r.type == 0) {std::fprintf(f, "{\"e\":\"inv\",\"t\":%d,\"m\":\"%s\",\"arg\":%lld}\n", r.t, MN[r.m], r.a);}
+    if (r.type == 0) {std::fprintf(f, "{\"e\":\"inv\",\"t\":%d,\"m\":\"%s\",\"arg\":%lld,\"vb\":[%lld,%lld,%lld]}\n", r.t, MN[r.m], r.a, r.b, r.c, r.d);}
     else if (r.type == 1) {std::fprintf(f, "{\"e\":\"lock\",\"t\":%d,\"mx\":%lld}\n", r.t, r.a);}
     else if (r.type == 2) {std::fprintf(f, "{\"e\":\"unlock\",\"t\":%d,\"mx\":%lld}\n", r.t, r.a);}
     else {
@@ -367,7 +385,8 @@ static void dump(Work & w, const char * path)
         case LOAD: std::fprintf(f, "{\"e\":\"res\",\"t\":%d,\"m\":\"load\",\"ret\":%lld,\"torn\":%s}\n", r.t, r.a, r.b ? "true" : "false"); break;
         case GETAVG: std::fprintf(f, "{\"e\":\"res\",\"t\":%d,\"m\":\"getAverage\",\"ret\":%lld,\"nan\":%s,\"exact\":%s}\n", r.t, r.a,
             r.b ? "true" : "false", r.c ? "true" : "false"); break;
-        case GETVAR: std::fprintf(f, "{\"e\":\"res\",\"t\":%d,\"m\":\"getVariance\",\"ret\":%lld,\"exact\":%s}\n", r.t, r.a, r.c ? "true" : "false"); break;
+        case GETVAR: std::fprintf(f, "{\"e\":\"res\",\"t\":%d,\"m\":\"getVariance\",\"ret\":%lld,\"exact\":%s,\"vb\":[%lld,%lld,%lld]}\n", r.t, r.a,
+            r.c ? "true" : "false", r.b, r.d, r.e); break;
         case GETREPORT: std::fprintf(f, "{\"e\":\"res\",\"t\":%d,\"m\":\"getReport\",\"status\":%lld,\"verdict\":\"%s\",\"has\":%s,\"value\":%lld}\n",
             r.t, r.a, VN[r.b], r.c ? "true" : "false", r.d); break;
         default: std::fprintf(f, "{\"e\":\"res\",\"t\":%d,\"m\":\"%s\",\"ret\":%lld}\n", r.t, MN[r.m], r.a);
